@@ -7,8 +7,16 @@ does}.  A case {"group": [case, case, ...]} is a back-to-back group: its element
 THIS process in the given order (what a long-lived scheduler does tick after tick - anything get_task_delay keeps
 between calls is shared by them); the observation is {"group": [observation, ...]}.  Because the whole group is one
 case, the grouping does not depend on how the harness shards the case list.  Only observations of /repo code (and of pytz, which it calls) are returned; the oracle side (zoneinfo reader,
-matcher) lives in harness/props/C13.py."""
+matcher) lives in harness/props/C13.py.
+
+A case (or group element) may carry "host": the time zone of the machine the scheduler runs on (a POSIX TZ string such as
+"MSK-3" / "EST5EDT" / "IST-5:30", or an IANA name resolved by the C library; absent / None = "UTC", the harness
+environment).  It is installed with os.environ["TZ"] + time.tzset() before the real code is called, and the controlled
+clock answers exactly like the real datetime class on such a host: now(tz) / utcnow() report the instant, now() WITHOUT
+tz the naive local wall clock of the host zone."""
 import datetime as dt
+import os
+import time
 import traceback
 
 import pytz
@@ -20,16 +28,34 @@ EP = dt.datetime(1970, 1, 1, tzinfo=dt.timezone.utc)
 NOW = [EP]
 
 
+HOST = [None]
+
+
+def set_host(host):
+    """make `host` the system time zone of this process (what TZ / /etc/localtime is on the scheduler machine)"""
+    host = host or "UTC"
+    if HOST[0] != host:
+        os.environ["TZ"] = host
+        time.tzset()
+        HOST[0] = host
+
+
 class VDT(dt.datetime):
-    """datetime whose now()/utcnow() are the harness clock"""
+    """datetime whose now()/utcnow() are the harness clock, answered the way the real class answers them:
+    now(tz) = the instant in tz, utcnow() = naive UTC, now() = naive wall clock of the SYSTEM zone (TZ / tzset)"""
 
     @classmethod
     def now(cls, tz=None):
-        return NOW[0].astimezone(tz) if tz is not None else NOW[0].replace(tzinfo=None)
+        if tz is None:
+            loc = NOW[0].astimezone().replace(tzinfo=None)   # system local time: time.localtime(), honours tzset()
+        else:
+            loc = NOW[0].astimezone(tz)
+        return cls.combine(loc.date(), loc.timetz())         # an instance of the class, as datetime.now() returns
 
     @classmethod
     def utcnow(cls):
-        return NOW[0].replace(tzinfo=None)
+        loc = NOW[0].replace(tzinfo=None)
+        return cls.combine(loc.date(), loc.timetz())
 
 
 def setup(opts):
@@ -55,6 +81,7 @@ def guarded(e):
 
 def run_one(c):
     NOW[0] = EP + dt.timedelta(microseconds=c["now"])
+    set_host(c.get("host"))
     off = c["off"]
     if off is None:
         o = None
@@ -72,6 +99,9 @@ def run_one(c):
         cron = c["cron"]
     t = ScheduledTask(task_name="t", labels={}, args=[], kwargs={}, cron=cron, cron_offset=o)
     obs = {"cron": t.cron, "offtype": type(t.cron_offset).__name__}
+    if c.get("host"):   # evidence only: what the C library makes of the host zone at this instant
+        obs["host_off_us"] = td_us(NOW[0].astimezone().utcoffset())
+        obs["local_now"] = VDT.now().isoformat()
     if isinstance(t.cron_offset, dt.timedelta):
         obs["off_us"] = td_us(t.cron_offset)
     elif isinstance(t.cron_offset, str):
